@@ -32,6 +32,12 @@ CLAIMED = {
  "C08": dict(tech=E, ref="4/C08",
    text="Model checking, explicit-state shape: same search as C07 over universes with all mixes of full/partial flags (complete depth-1 trees over base cells 0 and 11, depth-2 chain trees, degenerate deep shapes): all ordered pairs x {and, or, xor}, not on every state, closure layers; every transition compared with the three-valued pointwise tables (min, max, documented xor table, not swaps absent/full).",
    note="Trusted: three-valued range model R4. Shapes outside the universes are outside the bound."),
+ "C10": dict(tech=S, ref="4/C10",
+   text="Model checking over complete index sets: for every depth 0..10 (quick) / 0..12 (thorough) EVERY RING index r and every NESTED cell: from_ring(r) is in range, its lattice centre equals the exact integer centre that the RING order (latitude descending, longitude ascending, 4i cells in polar ring i) assigns to rank r, to_ring inverts it, to_ring(h) equals the rank of the centre of h and from_ring inverts it (=> bijection outright on these depths); RING-scheme and NESTED centres agree to 4e-15. Depths up to 29: ~900 rings per depth (first rings, powers of two +-1, cap/transition/equator classes, 800 spread rings) x first/last/quarter-boundary indices +-2 and border-class NESTED cells; thorough adds EVERY polar ring boundary (north and south) of depths 26 and 29.",
+   note="Trusted: exact integer RING model R3 (u128, exact integer square root), self-checked against the lattice model R2 for nside 1..16."),
+ "C11": dict(tech=S, ref="4/C11",
+   text="Model checking, stateless shape: for EVERY nside in 1..40 (quick) / 1..160 (thorough) every cell: projected centre = exact R3 lattice centre (=> order, 4i / 4 nside ring cardinalities), hash(centre) = cell, sph_coo at 5 offsets; 11 lattice points per cell (vertices, edge mid-points, centre, interior; 3x3 ulp nudges for nside <= 16) through hash / hash_with_dxdy / sph_coo (range, containment in the R3 diamond, offsets in [0,1], inverse); 33 large nside values up to 2^29 (primes, odd, 2^k+-1) on ring-boundary class cells; out-of-range hashes and latitudes rejected. Positions on the polar-cap seams matching the listed known finding KF-2 are reported as KNOWN-FINDING only, for ring::hash / hash_with_dxdy only.",
+   note="Trusted: R3 and R1. nside values not listed, and positions away from the enumerated lattice points, are outside the bound."),
  "C15": dict(tech=E, ref="4/C15",
    text="Model checking over push histories: ALL push sequences of length <= 5 over a 13-cell (quick) / 20-cell (thorough) alphabet of aligned runs, parent-boundary crossings and last cells x 7 buffer capacities (1..100, forcing many intermediate merges) x both flags; consecutive runs of every length 1..70/300 from aligned and unaligned starts in 6 push orders x 12 capacities; all subsets of depth-0 cells and of 11 depth-29 cells; and ALL valid entry sequences of a depth-2 universe (with partial flags and unpacked shapes) through to_bmoc_packing / to_lower_depth_bmoc(_packing) for every lower depth. Oracle: set model of the pushed cells / three-valued range model.",
    note="Trusted: range model R4. Longer histories, other cells and capacities are outside the bound (the default capacity of 10^7 is represented by capacity 100 and 1000 > history length)."),
